@@ -13,9 +13,12 @@ import GB.C08.Spec
     trl <code> <cb msg> <md>                      => <cb wire>
          lpmTrailer(trailerWithStatus(md, status))                (function level; lines compared as a multiset)
     http <h1|h2> k=<uu|cs|ss|bd> cd=<raw|empty> rt=<ok|code:cb> fr=<frames> tl=<cb> ck=<n/n/..> rs=<cbs> fs=<code>:<cb> tm=<md> ea=<-|n>
-                                                  => st=<n> rv=<recvs> tg=<cbs> te=<eof|open|none> sd=<cbs> oc=<code>:<cb> body=<cb> gd=<...>
+                                                  => st=<n> rv=<recvs> tg=<cbs> te=<eof|open|none> sd=<cbs> sf=<n> tr=<md> oc=<code>:<cb> body=<cb> gd=<...>
     ws   k=.. cd=.. rt=.. hd=<ok|bad>:<cb> ms=<cbs raw websocket messages> rs= fs= tm= ea=
-                                                  => up=<n> ws=<cbs> cl=<n|none> rv= tg= te= sd= oc=
+                                                  => up=<n> ws=<cbs> cl=<n|none> rv= tg= te= sd= sf= tr= oc=<code:cb|->
+  rv = results of the Recv calls on the bridge's ServerStream, tg = messages the target received, te = target stream
+  state, sd = messages the ServerStream accepted (Send = nil), tr = metadata given to SetTrailer, oc = what
+  RouteGRPC / Forward returned (the call's outcome), all observed by wrappers inside the harness.
   frames: `<flag hh>:<declared length|=>:<cb payload>`; recvs: `m:<cb>` | `eof` | `e:<grpc code>`; md: `<cb key>:<cb value>`.
 
   Verdicts: VIOL = the observed behaviour breaks the property text (lossy / reordered / truncated request
@@ -321,6 +324,7 @@ def handleWS (i o : List String) : String :=
         | none => if ocs = "-" then "VIOL trailer does not decode to a status" else "BAD c08 ws oc"
         | some (oc, om) =>
         let routed : Bool := hdOK && rt == "ok"
+        if !hdOK && te != "none" then "VIOL call forwarded to the target after its header message was rejected" else
         let (P, finished) := wsPrefix items
         let reqV := if routed then judgeReq P false finished cs early rv tg te oc else none
         match reqV with
